@@ -6,6 +6,7 @@ package c11
 import (
 	"bytes"
 	"encoding/hex"
+	"fmt"
 	"sort"
 
 	"pgregory.net/rapid"
@@ -68,10 +69,7 @@ func applyKind(e *Entry, kind string) {
 // genTable draws a strictly ascending entry list. small = keep files small
 // (used by the corruption property so that more faults per second are tried).
 func genTable(t *rapid.T, small bool) []Entry {
-	profiles := []string{"counter", "counter", "ascii", "binary", "longprefix", "bigvalues", "bigvalues", "mixed", "edge"}
-	if small {
-		profiles = []string{"counter", "counter", "ascii", "binary", "longprefix", "bigvalues", "bigvalues", "mixed", "edge"}
-	}
+	profiles := []string{"counter", "counter", "ascii", "binary", "longprefix", "bigvalues", "bigvalues", "mixed", "edge", "composite", "composite"}
 	profile := rapid.SampledFrom(profiles).Draw(t, "profile")
 	mix := kindMix{
 		tomb:  rapid.SampledFrom([]int{0, 10, 30, 60}).Draw(t, "tombpct"),
@@ -195,6 +193,42 @@ func genTable(t *rapid.T, small bool) []Entry {
 			}
 			e := Entry{P: 2, T: hex.EncodeToString(tail), S: seqGen.Draw(t, "seq")}
 			e.V = vl.Draw(t, "vlen")
+			applyKind(&e, drawKind(t, mix))
+			es = append(es, e)
+		}
+	case "composite":
+		// keys whose varying part sits in the MIDDLE: shared head, a field that
+		// differs between neighbours, then a tail that is the same again
+		// ("acct/000017/balance"): a key shares bytes with its predecessor both
+		// before and behind the first difference
+		hi := 400
+		if small {
+			hi = 60
+		}
+		n := rapid.IntRange(2, hi).Draw(t, "n")
+		head := rapid.SliceOfN(rapid.SampledFrom([]byte{'a', 'c', '/', 0x00, 0xff}), 0, 12).Draw(t, "head")
+		nsuf := rapid.IntRange(1, 3).Draw(t, "nsuf")
+		var sufs [][]byte
+		for i := 0; i < nsuf; i++ {
+			sufs = append(sufs, rapid.SliceOfN(rapid.SampledFrom([]byte{'/', 'b', 'l', 'x', 0x00, 0xff}), 1, 20).Draw(t, "suf"))
+		}
+		width := rapid.IntRange(1, 8).Draw(t, "width")
+		decimal := rapid.Bool().Draw(t, "decimal")
+		c := rapid.IntRange(0, 1<<12).Draw(t, "start")
+		for i := 0; i < n; i++ {
+			c += rapid.SampledFrom([]int{1, 1, 1, 2, 7, 16, 255, 256, 4096}).Draw(t, "gap")
+			var mid []byte
+			if decimal {
+				mid = []byte(fmt.Sprintf("%0*d", width, c))
+			} else {
+				mid = make([]byte, width)
+				for j, x := width-1, c; j >= 0; j, x = j-1, x>>8 {
+					mid[j] = byte(x)
+				}
+			}
+			k := append(append(append([]byte{}, head...), mid...), rapid.SampledFrom(sufs).Draw(t, "sufpick")...)
+			e := Entry{T: hex.EncodeToString(k), S: seqGen.Draw(t, "seq")}
+			e.V = rapid.OneOf(tiny, tiny, rapid.IntRange(9, 300)).Draw(t, "vlen")
 			applyKind(&e, drawKind(t, mix))
 			es = append(es, e)
 		}
